@@ -10,7 +10,8 @@
 (* originally pinned) is expected to fail (ExportIndication with a path,   *)
 (* SCOPE ANY, real keys in CIMObject); the regression flags (keephost,    *)
 (* hdr_before_default, minst_order, ns_drop_empty, wrap_host_first,        *)
-(* name_host_first, ns_shared) must fail.  The object case space (ObjCases:           *)
+(* name_host_first, ns_shared, refarray_inst_first) must fail.  The object  *)
+(* case space (ObjCases:                                                   *)
 (* tocimxml() of names / instances / classes / properties / parameter      *)
 (* values over path shape x ignore arguments x reference shapes) is        *)
 (* checked the same way (ValidTree; no headers).  With Emit = TRUE the     *)
@@ -103,6 +104,25 @@ ASSUME Emit => \A pr \in CoinRolePairs :
 ASSUME Emit => \A k \in {"iname", "inst", "class", "prop", "param"} :
                  \E cc \in ObjCases :
                    cc.kind = k /\ Coincidence(ObjTree(cc, {})) = "same"
+(* arrays of references: every kind of item mix occurs, as a request        *)
+(* parameter in every form (tuple / keyword / CIMParameter) and as an        *)
+(* object case                                                               *)
+ASSUME \A k \in RefArrayKinds :
+         \E sh \in DOMAIN MRefArrays :
+           /\ RefArrayKind(sh) = k
+           /\ sh \in MParamShapes
+           /\ \E oc \in ObjCases : oc.kind = "param" /\ oc.pr = <<sh>>
+(* extension header values: what a receiver reads from the value            *)
+(* _quote_edge_blanks() writes is the value, for every value of up to 5      *)
+(* characters; every edge-blank form occurs among them; the regression       *)
+(* (trailing blanks counted with rstrip) is wrong exactly on the values of   *)
+(* form "only", i.e. that form is needed to see it                           *)
+ASSUME \A v \in HdrValues(5) : Received(QuoteEdgeBlanks(v, {})) = v
+ASSUME \A f \in EdgeBlankForms : \E v \in HdrValues(5) : EdgeBlankFormOf(v) = f
+ASSUME \A v \in HdrValues(5) :
+         (Received(QuoteEdgeBlanks(v, {"edge_rstrip"})) # v)
+           <=> EdgeBlankFormOf(v) = "only"
+ASSUME PrintT(<<"EDGEFORMS", ToJson(SetToSeq(EdgeBlankForms))>>)
 ASSUME PrintT(<<"OPTABLE", ToJson(OpTable)>>)
 ASSUME PrintT(<<"REFSPEC", ToJson([sh \in RefShapes \cup {"refi"} |-> RefSpec(sh)])>>)
 ASSUME PrintT(<<"MREFARRAYS", ToJson(MRefArrays)>>)
